@@ -143,6 +143,17 @@ func c15Int(nstr string) core.Result {
 		if msg := safeLaw(v, got); msg != "" {
 			return core.Violation("safe-wrapper", msg)
 		}
+		// an integer kind spells its value in decimal digits, whatever its size (floats switch to an exponent at a million)
+		switch v.(type) {
+		case float32, float64:
+		default:
+			if got.s != n.String() {
+				return core.Violation("string", fmt.Sprintf("CoerceString(%T(%v)) = %q, want %q", v, v, got.s, n.String()))
+			}
+			if back := stick.CoerceNumber(got.s); back != got.n {
+				return core.Violation("string", fmt.Sprintf("CoerceString(%T(%v)) = %q, which coerces back to %v, not %v", v, v, got.s, back, got.n))
+			}
+		}
 		if i == 0 {
 			first = got
 			wantN, _ := new(big.Float).SetInt(n).Float64()
@@ -663,6 +674,13 @@ var (
 // environment and in a Twig .txt template writes CoerceString(v); in a Twig html / js template the escaper's rendering
 // of CoerceString(v); v ~ '' is CoerceString(v); {% if v %} and the conditional choose by CoerceBool(v); v + 0 is
 // CoerceNumber(v). (Safe wrappers are left to C12.)
+// customSafeNone is a user-defined SafeValue that is safe for no content type.
+type customSafeNone struct{ v stick.Value }
+
+func (c customSafeNone) Value() stick.Value     { return c.v }
+func (c customSafeNone) IsSafe(typ string) bool { return false }
+func (c customSafeNone) SafeFor() []string      { return nil }
+
 func c15PrintLaw(vals []stick.Value) string {
 	if c15CoreEnv == nil {
 		c15CoreEnv = stick.New(nil)
@@ -681,6 +699,13 @@ func c15PrintLaw(vals []stick.Value) string {
 	if len(vs) == 0 {
 		return ""
 	}
+	// a value wrapped as safe for a content type none of these templates has (or for no type at all) prints exactly
+	// like the value inside
+	var wrapped []stick.Value
+	for _, v := range vs {
+		wrapped = append(wrapped, stick.NewSafeValue(v, "zzcustom"), stick.NewSafeValue(v), customSafeNone{v})
+	}
+	vs = append(vs, wrapped...)
 	type form struct {
 		env  *stick.Env
 		name string
